@@ -37,6 +37,14 @@ NP_FUNS = {'exp': 'o.exp', 'log': 'o.log', 'sign': 'o.sign', 'abs': 'o.abs', 'lo
 
 def tr(e, env, mode):
     """Python expression -> Lean term.  env: names/subscripts -> Lean variables.  mode: 'pow10' | 'ops' | 'field'."""
+    if not isinstance(e, (ast.Name, ast.Constant)) and ast.unparse(e).replace(' ', '') in env:
+        return env[ast.unparse(e).replace(' ', '')]
+    if isinstance(e, ast.Constant) and isinstance(e.value, float) and mode == 'sci' and 0 < e.value < 1:
+        # a decimal fraction like 0.015 -> OfScientific literal (exact decimal, as written in the source)
+        txt = repr(e.value)
+        if 'e' in txt or not txt.startswith('0.'):
+            raise Untranslatable('constant ' + txt)
+        return '(%s)' % txt
     if isinstance(e, ast.Name):
         if e.id in env:
             return env[e.id]
@@ -207,6 +215,38 @@ def main():
     attempt('src_beads_model', '(o : FlowCal.Mef.Ops α) (p0 p1 p2 x : α)', inner('fit_fun', pe))
     attempt('src_std_curve', '(o : FlowCal.Mef.Ops α) (p0 p1 x : α)', inner('sc_fun', pe))
 
+    # ---- mef.selection_std: default thresholds and the two comparisons of the mask -----------------------
+    def sel_fn():
+        return find(m, ast.FunctionDef, 'selection_std')
+
+    def threshold(name):
+        def f():
+            asg = [n for n in ast.walk(sel_fn()) if isinstance(n, ast.Assign) and len(n.targets) == 1 and isinstance(n.targets[0], ast.Name) and n.targets[0].id == name
+                   and isinstance(n.value, ast.BinOp)]
+            if len(asg) != 1:
+                raise Untranslatable('%d arithmetic assignments to %s in selection_std' % (len(asg), name))
+            return tr(asg[0].value, {'sf(r[0])': 's0', 'sf(r[1])': 's1'}, 'sci'), ast.unparse(asg[0])
+        return f
+    attempt('src_threshold_low', '(s0 s1 : β)', threshold('low'), 'β')
+    attempt('src_threshold_high', '(s0 s1 : β)', threshold('high'), 'β')
+
+    def mask_side(i):
+        def f():
+            asg = [n for n in ast.walk(sel_fn()) if isinstance(n, ast.Assign) and isinstance(n.targets[0], ast.Name) and n.targets[0].id == 'selected_mask']
+            if len(asg) != 1:
+                raise Untranslatable('%d assignments to selected_mask' % len(asg))
+            c = asg[0].value
+            ok = isinstance(c, ast.Call) and ast.unparse(c.func) == 'np.logical_and' and len(c.args) == 2 and all(isinstance(a, ast.Compare) and len(a.ops) == 1 for a in c.args) \
+                and isinstance(c.args[0].ops[0], ast.Gt) and isinstance(c.args[1].ops[0], ast.Lt) and ast.unparse(c.args[0].comparators[0]) == 'low' \
+                and ast.unparse(c.args[1].comparators[0]) == 'high'
+            if not ok:
+                raise Untranslatable('selection mask is ' + ast.unparse(c))
+            env = {'pop_mean': 'mean', 'pop_std': 'std', 'n_std_low': 'nLow', 'n_std_high': 'nHigh'}
+            return tr(c.args[i].left, env, 'sci'), ast.unparse(c)
+        return f
+    attempt('src_reach_low', '(nLow mean std : β)', mask_side(0), 'β')
+    attempt('src_reach_high', '(nHigh mean std : β)', mask_side(1), 'β')
+
     # ---- gate.ellipse: rotation matrix and quadratic form ------------------------------------------------
     g = parse('gate.py')
 
@@ -304,7 +344,8 @@ def main():
     lean = ['/-! GENERATED by extract/exprs.py from the FlowCal sources -- do not edit.\n',
             'Formulas found in the source, translated term by term.  Missing (not located / not translatable): %s -/' % (missing or 'none'),
             'import FlowCalModel.Logicle', 'import FlowCalModel.Mef', 'import FlowCalModel.Gate', 'namespace FlowCal.GeneratedExpr', 'open FlowCal.Logicle', '',
-            'variable {α : Type} [Add α] [Sub α] [Mul α] [Div α] [Neg α] [OfNat α 1] [OfNat α 2] [Pow10 α]', '']
+            'variable {α : Type} [Add α] [Sub α] [Mul α] [Div α] [Neg α] [OfNat α 1] [OfNat α 2] [Pow10 α]',
+            'variable {β : Type} [Add β] [Sub β] [Mul β] [OfScientific β]', '']
     # the import lines must precede the module doc comment
     head = [l for l in lean if l.startswith('import ')]
     rest = [l for l in lean if not l.startswith('import ')]
